@@ -87,6 +87,11 @@ P = {
         note="Solver optimality is an oracle assumption, checked per run on the captured coefficient.",
         tech="Coq proof (convexity argument on weighted absolute loss) + differential correspondence",
         ref="DESIGN.md section 5 C05"),
+    "C16": dict(
+        text="Theorems for every frame, every set of fixed effects / selected levels / distribution of levels over unit categories: fitting and prediction rows have the columns of active_features in the same order (intercept first, baseline-margin terms next, stable); every fitted dummy column takes both 0 and 1 on the fitting rows; exactly one observed level per effect is absorbed; seen level -> its indicator (all zeros for the absorbed one); unseen level -> 1/(k+1) on each of the k fitted levels; centred features have mean 0; unselected levels pool into 'other'; per-state copies only for states with reporting units. Correspondence at the Featurizer API with the callers' positional slices, plus a caller-level stream on the matrices handed to the solver.",
+        note="Effect names prefix-free (hypothesis); caller-level finding F12 recorded.",
+        tech="Coq proof (NoDup / first-observed-level arguments on sorted distinct levels) + differential correspondence on every matrix entry",
+        ref="DESIGN.md section 5 C16"),
 }
 
 REASON_NOT_BUILT = "check not built yet in this development stage (planned: see DESIGN.md section 5)"
